@@ -202,6 +202,7 @@ func C09(p *load.Prog, r *oblig.Run) {
 	c07PairSearch(p, r)
 	c07CopyWalksAll(p, r)
 	c07CopyThroughFilter(p, r)
+	c07Bookkeeping(p, r)
 	r.Rule("R09.c", "a merge function returns nil or a node computed from both operands (nothing of the right node is dropped by a shortcut)", 1)
 	g := cg.New(p, false)
 	mn := p.MustFunc(load.PkgRoot, "MergeNodes")
@@ -347,6 +348,7 @@ func C07(p *load.Prog, r *oblig.Run) {
 	c07PairSearch(p, r)
 	c07CopyWalksAll(p, r)
 	c07CopyThroughFilter(p, r)
+	c07Bookkeeping(p, r)
 	g := cg.New(p, false)
 	dc := p.MustFunc(load.PkgRoot, "DeepCopy")
 	fl := p.MustFunc(load.PkgRoot, "Filter")
